@@ -19,10 +19,13 @@ NA = {
 }
 PENDING = {
 "C06":"Claimed in DESIGN.md; check not built yet in this commit (seeded interleaving of logical clients over a handle tree).",
-"C07":"Claimed in DESIGN.md; check not built yet in this commit (seeded goroutine scheduler + race detector).",
 "C14":"Claimed in DESIGN.md; check not built yet in this commit (seeded goroutine scheduler over the prepared-statement cache).",
 }
 CHECKS = {
+"C07": dict(cat="exploration", ref="DESIGN.md section 7, C07",
+  text="2..32 tasks share one *gorm.DB and run seeded programs (Create with nested associations, Find/First, Preload, Joins, Update(s), Delete, Transaction, Association calls) on disjoint rows, schema cache cold or warm, PrepareStmt on/off; a seeded scheduler (one runnable goroutine at a time, futex hand-off invisible to the race detector) decides every interleaving at pool calls, hooks, naming-strategy calls inside schema parsing and the simhook sites in gorm. Per run: every task's results and the final rows equal the serial run, no deadlock, no panic; race-build runs add: no race report with an access in gorm code (known racing pairs are listed individually). Seeded sampling of schedules, not enumeration.",
+  note="Trusted: the write-token serialisation of write transactions (SQLite single writer); no parking inside database/sql; the race detector's bounded history; the serial run as the reference for 'same result as when it runs alone'.",
+  tech="deterministic simulation: seeded baton scheduler over real goroutines + race detector + serial-run differential"),
 "C18": dict(cat="exploration", ref="DESIGN.md section 7, C18",
   text="Seeded write, read (preload, joins, batches, rows, count, pluck) and association-mode operations started from WithContext/Session{Context} with a uniquely tagged context, at transaction nesting 0..3, PrepareStmt on/off, ConnPool shim on/off, cold/warm: the tag is checked on every ConnPool call and every context-carrying driver call while the run proceeds; the operation is re-run with the context cancelled beforehand (no statement may reach the driver, the context error is returned) and with the context cancelled just before pool call k for every k (no later statement may reach the driver, an error is returned, nothing leaks).",
   note="Trusted: the tag is a context value (child contexts are fine); Commit/Rollback/Close carry no context; cancellation is injected between pool calls only; database/sql's own context handling.",
